@@ -221,6 +221,66 @@ def r_ry_sphere(ctx: Ctx, model):
     ctx.floor("RY sphere layer cases", npaths, 3)
 
 
+def r_hk_cylinder(ctx: Ctx, model):
+    """Saito-Foley cylindrical pore (psd_horvath_kawazoe, geometry 'cylinder'): the terms of the series, for truncations after
+    1, 2 and 3 terms, against the documented equation (alpha_k, beta_k by their recurrences, prefactor 3/4 pi N_A/(RT) (n_g A_gg +
+    n_h A_gh)/d_0^4).  Where the code truncates the infinite series is a numerical choice and is not decided."""
+    ctx.rule("H-cylinder [ALG]: the k-th term of the Saito-Foley series is 1/(k+1) (1-d0/L)^(2k) [21/32 alpha_k (d0/L)^10 - beta_k (d0/L)^4] "
+             "with alpha_k = ((-4.5-k)/k)^2 alpha_(k-1), beta_k = ((-1.5-k)/k)^2 beta_(k-1), for k = 0..3")
+    I = mk(model)
+    patch_constants(I)
+    fi = model.func(f"{PMI}.psd_horvath_kawazoe")
+    captured = {}
+
+    def fake_solver(I, fi_, env, n):
+        captured["fun"] = env["hk_fun"]
+        return [S("Lw0"), S("Lw1"), S("Lw2")]
+    I.overrides[f"{PMI}._solve_hk"] = fake_solver
+    I.overrides[f"{PMI}._solve_hk_cy"] = fake_solver
+    a, m = props("a"), {k: v for k, v in props("m").items() if k not in ("liquid_density", "adsorbate_molar_mass")}
+    T = S("T")
+    outs = I.explore(lambda I: I.call_func(fi, [Vec([S(f"p{i}") for i in range(3)]), Vec([S(f"n{i}") for i in range(3)]), T, "cylinder",
+                                                dict(a), dict(m)], {}, None))
+    if not outs or outs[0].kind != "ok" or "fun" not in captured:
+        raise AnalysisError(f"psd_horvath_kawazoe(cylinder) cannot be interpreted: {outs[:1]}")
+    phi_f = captured["fun"]
+    l = S("l")
+    chosen = {}
+    orig_int = I.ext.get("builtins.int")
+
+    def int_fork(I, a_, k, n):
+        if _is_symbolic(a_[0]):
+            c = I.choose(4, "series-terms")
+            chosen["K"] = c + 1
+            return sp.Integer(c + 1)
+        return orig_int(I, a_, k, n)
+    I.ext["builtins.int"] = int_fork
+    d0 = (a["molecular_diameter"] + m["molecular_diameter"]) / 2
+    nm = sp.Rational(1, 10**9)
+    pa, pm_ = a["polarizability"] * sp.Rational(1, 10**27), m["polarizability"] * sp.Rational(1, 10**27)
+    ca, cm = a["magnetic_susceptibility"] * sp.Rational(1, 10**27), m["magnetic_susceptibility"] * sp.Rational(1, 10**27)
+    A_gg = sp.Rational(3, 2) * S("m_e") * S("c_l")**2 * pa * ca
+    A_gh = 6 * S("m_e") * S("c_l")**2 * pa * pm_ / (pa / ca + pm_ / cm)
+    alpha, beta = [sp.Integer(1)], [sp.Integer(1)]
+    for k in range(1, 6):
+        alpha.append(((sp.Rational(-9, 2) - k) / k)**2 * alpha[-1])
+        beta.append(((sp.Rational(-3, 2) - k) / k)**2 * beta[-1])
+    n = 0
+    for oc in I.explore(lambda I: (chosen.clear(), I.call_value(phi_f, [l], {}, None), chosen.get("K"))[1:]):
+        if oc.kind != "ok":
+            raise AnalysisError(f"cylinder potential closure cannot be evaluated: {oc}")
+        phi, K = oc.value
+        n += 1
+        x = d0 / l
+        series = sum(sp.Rational(1, k + 1) * (1 - x)**(2 * k) * (sp.Rational(21, 32) * alpha[k] * x**10 - beta[k] * x**4) for k in range(0, K))
+        want = sp.Rational(3, 4) * sp.pi * (S("N_A") / (S("R") * T)) * (a["surface_density"] * A_gg + m["surface_density"] * A_gh) / (d0 * nm)**4 * series
+        verdict, wit = decide_zero(phi - want, symbols_domain={"l": (1, 2), "d_a": (sp.Rational(3, 10), sp.Rational(35, 100)), "d_m": (sp.Rational(3, 10), sp.Rational(35, 100))})
+        ctx.ob(verdict == "zero", Finding("C17.H-cylinder", fi.where, f"hk-cylinder|terms={K}|series!=documented-equation",
+                                          f"the Saito-Foley cylinder potential truncated after {K} term(s) differs from the documented series; witness {wit}"),
+               nontrivial_key=("hk-cyl", K), sample={"rule": "H-cylinder", "terms": K})
+    ctx.floor("HK cylinder truncations", n, 4)
+
+
 def _is_symbolic(v):
     return isinstance(v, sp.Basic) and not v.is_number
 
@@ -384,6 +444,7 @@ def run(ctx: Ctx):
     ctx.assume("scipy.optimize.minimize_scalar(method='bounded') returns a minimiser of its objective inside the bounds")
     r_slit_and_report(ctx, model)
     r_ry_sphere(ctx, model)
+    r_hk_cylinder(ctx, model)
     r_solver(ctx, model)
     r_dispatch(ctx, model)
     r_params(ctx, model)
